@@ -306,7 +306,21 @@ func (ex *Exec) gcmOpen(key []*Term, dst, nonce, ct *SliceV) Value {
 }
 
 // chooseAny is choose for alternatives that need not be mutually exclusive.
-func (ex *Exec) chooseAny(conds []*Term) int { return ex.choose(conds) }
+func (ex *Exec) chooseAny(conds []*Term) int {
+	var trues []int
+	allConst := true
+	for i, c := range conds {
+		if c == TTrue {
+			trues = append(trues, i)
+		} else if c != TFalse {
+			allConst = false
+		}
+	}
+	if allConst && len(trues) > 1 {
+		return trues[ex.chooseN(len(trues))]
+	}
+	return ex.choose(conds)
+}
 
 func (ex *Exec) cachedError(msg string) *IfaceV {
 	k := "err:" + msg
